@@ -32,7 +32,10 @@ def _limit(tier):
 
 
 def _contains_zero_divisor_or_undefined_constant(model, envs):
-    """Is a raise from simplify allowed? (division by an identically-zero divisor, or an undefined closed sub-term)"""
+    """Is a raise from simplify allowed? (division by an identically-zero divisor, or an undefined closed sub-term)
+
+    Returns True also when the oracle cannot tell (a divisor on which the evaluator abstains everywhere).
+    """
     for n in ev._walk(model):
         closed = not any(x[0] in ('this', 'var') for x in ev._walk(n))
         if closed and n[0] in ('bin', 'un', 'call', 'calln', 'index', 'range', 'set'):
@@ -40,20 +43,18 @@ def _contains_zero_divisor_or_undefined_constant(model, envs):
             if st == 'undef':
                 return True
         if n[0] == 'bin' and n[1] == '/':
-            zero_everywhere = True
-            seen = False
-            for e in envs:
-                # the divisor may sit under a quantifier; then only a closed divisor is judged
+            statuses = set()
+            nonzero = False
+            for e in envs or [ev.Env()]:
                 st, v = ev.try_ev(n[3], e)
-                if st == 'ok':
-                    seen = True
-                    if v != 0:
-                        zero_everywhere = False
-                        break
-                elif st == 'undef' and 'unbound variable' in v:
-                    zero_everywhere = False
+                if st == 'undef' and 'unbound variable' in v:
+                    nonzero = True  # under a quantifier: only closed divisors are judged
                     break
-            if seen and zero_everywhere:
+                statuses.add(st)
+                if st == 'ok' and v != 0:
+                    nonzero = True
+                    break
+            if not nonzero and ('ok' in statuses or 'ambig' in statuses or 'illcond' in statuses):
                 return True
     return False
 
